@@ -43,6 +43,7 @@ func checkC01(c c01Case, o *Obs) error {
 	o.LabelIf(c.Wrap > 0, "wrap")
 	o.LabelIf(c.Threads > 1, "threads>1")
 	o.LabelIf(c.Wrap > 65535, "wrap>65535")
+	o.LabelIf(len(c.In.Ref) >= 1<<20, "sam-line>=1MiB")
 	nt := false
 	for _, r := range c.In.Recs {
 		if r.Kind != "aligned" {
@@ -137,7 +138,33 @@ func samOptsFor(conflict bool) samGenOpts {
 	return o
 }
 
+// genC01Megabase: a record whose SAM line is longer than 1 MiB (a bacterial-size contig, or any genome beyond ~1.05 Mb), between
+// two short records; a small window keeps the output small in half of the cases.
+func genC01Megabase(t *rapid.T) c01Case {
+	n := rapid.SampledFrom([]int{1048570, 1048576, 1100000}).Draw(t, "megaLen")
+	unit := genACGT(t, 997, "megaUnit")
+	ref := strings.Repeat(unit, n/997+1)[:n]
+	in := SamInput{RefName: "contig", Ref: ref}
+	short := func(name string, pos, l int) SamRec {
+		return SamRec{Name: name, Flag: 0, Pos: pos, Ops: []SamOp{{"M", l}}, Seq: ref[pos-1 : pos-1+l], Kind: "aligned"}
+	}
+	skip := rapid.IntRange(0, 50).Draw(t, "megaStart")
+	long := SamRec{Name: "long", Flag: 0, Pos: 1 + skip, Ops: []SamOp{{"M", n - skip}}, Seq: ref[skip:], Kind: "aligned"}
+	in.Recs = []SamRec{short("short1", 1, 8), long, short("short2", 5, 4)}
+	if rapid.Bool().Draw(t, "longFirst") {
+		in.Recs = []SamRec{long, short("short1", 1, 8), short("short2", 5, 4)}
+	}
+	c := c01Case{In: in, Start: -1, End: -1, Wrap: -1, Threads: rapid.SampledFrom([]int{1, 2}).Draw(t, "threads"), Pad: rapid.Bool().Draw(t, "pad")}
+	if rapid.Bool().Draw(t, "window") {
+		c.Start, c.End = 1, 10+rapid.IntRange(0, 50).Draw(t, "winEnd")
+	}
+	return c
+}
+
 func genC01(t *rapid.T) c01Case {
+	if oneIn(t, "megabase", 200) {
+		return genC01Megabase(t)
+	}
 	if rapid.IntRange(0, 1999).Draw(t, "veryLongRef") == 0 {
 		// rows longer than 64 KiB, wrapped at widths around and above 65536 (line buffers of writers end there)
 		n := rapid.SampledFrom([]int{66000, 70000, 131100}).Draw(t, "veryLongLen")
